@@ -417,7 +417,7 @@ def c12(ctx):
 FORMATS5 = [None, 'gz', 'bz2', 'lzma', 'xz']
 
 
-def recompress_tree(t, manifests, assign):
+def recompress_tree(t, manifests, assign, transform=None):
     """store every sub-Manifest of the tree in the format assign[logical name] (None = plain), bottom-up, and
     rewrite the MANIFEST entries that refer to it (new name, true size, same hash names, true digests)"""
     import re
@@ -432,7 +432,9 @@ def recompress_tree(t, manifests, assign):
         if raw is None:
             continue
         lm = logical(m)
-        fmt = assign.get(lm)
+        fmt = assign.get(lm, ET.suffix_of(os.path.basename(m)))
+        if transform and lm in transform:
+            raw = transform[lm](raw)
         new = lm + ('.' + fmt if fmt else '')
         data = ET.compress(fmt, raw) if fmt else raw
         d, name = os.path.split(m)
